@@ -148,10 +148,10 @@ fn fitted_vertexing(c: &PointsCase, ev: &mut Ev) -> Outcome {
 /// linkage, alone or with a cloud / a second staircase around them.
 fn sparse_case() -> impl proptest::strategy::Strategy<Value = PointsCase> {
     use proptest::prelude::*;
-    let stair = (staircase(), 13u16..=40, any::<u64>()).prop_map(|(family, n, seed)| Group { family, n, seed });
+    let stair = (staircase(), 13u16..=40, any::<u64>()).prop_map(|(family, n, seed)| Group { family, n, seed, flat: 0 });
     (proptest::collection::vec(stair, 1..=3), proptest::option::weighted(0.3, (20u16..200, any::<u64>())), proptest::collection::vec((any::<u16>(), 1u8..3), 0..=2)).prop_map(|(mut groups, cloud, duplicates)| {
         if let Some((n, seed)) = cloud {
-            groups.push(Group { family: Family::Cloud, n, seed });
+            groups.push(Group { family: Family::Cloud, n, seed, flat: 0 });
         }
         PointsCase { groups, duplicates }
     })
